@@ -433,5 +433,63 @@ def run(rd, emit, log, enum_values, ti_default):
     act_fact('modify', 'modifyobjecthandler.cpp', [r'\bobj\s*->\s*ModifyAttribute\s*\(', r'\bobj\s*->\s*RestoreAttribute\s*\('])
     act_fact('delete', 'deleteobjecthandler.cpp', [r'ConfigObjectUtility::DeleteObject\s*\(\s*obj\s*,'])
     act_fact('actions', 'actionshandler.cpp', [r'->\s*Invoke\s*\(\s*obj\s*,'])
+    # ---- round 6: (1) the permission list is read from the attribute on EVERY HasPermission call - `user->GetPermissions()`
+    # inside HasPermission, no other accessor of the user, and class ApiUser (apiuser.hpp) carries no data member in which
+    # something derived from the list could survive a request.  Some false = the list is recognisably obtained another way.
+    fu = strip_comments(rd('lib/remote/filterutility.cpp'))
+    fresh = None
+    hm = re.search(r'bool\s+FilterUtility::HasPermission\s*\([^)]*\)\s*\{', fu)
+    if hm:
+        depth, k = 1, hm.end()
+        while k < len(fu) and depth:
+            if fu[k] == '{': depth += 1
+            elif fu[k] == '}': depth -= 1
+            k += 1
+        hb = fu[hm.end():k - 1]
+        reads = re.search(r'=\s*user\s*->\s*GetPermissions\s*\(\s*\)\s*;', hb)
+        others = [x for x in re.findall(r'user\s*->\s*(\w+)\s*\(', hb) if x not in ('GetPermissions', 'GetName')]
+        loop = re.search(r'for\s*\(\s*const\s+Value\s*&\s*(\w+)\s*:\s*permissions\s*\)', hb)
+        try:
+            ah = strip_comments(rd('lib/remote/apiuser.hpp'))
+        except Exception:
+            ah = ''
+        cm = re.search(r'class\s+ApiUser\b[^{;]*\{(.*?)\n\};', ah, flags=re.S)
+        members = re.findall(r'^\s*(?:mutable\s+)?[\w:<>,\s\*&]+?\s+(m_\w+)\s*(?:=[^;]*|\{[^;]*\})?;', cm.group(1), flags=re.M) if cm else None
+        if not reads or others:
+            fresh = False
+        elif members is not None and not members and loop:
+            fresh = True
+    if fresh is None:
+        log.append('C18: HasPermission reading user->GetPermissions() per call / ApiUser without own data members not recognised (compared only)')
+    body += 'Definition f_pm_perms_read_fresh : option bool := %s.\n' % ('None' if fresh is None else ('Some true' if fresh else 'Some false'))
+    # (2) the user of a request is a LOCAL of the ProcessMessages loop: initialised from m_ApiUser (certificate), otherwise from
+    # the request's own Authorization header; m_ApiUser is assigned in the constructor only.
+    hs = strip_comments(rd('lib/remote/httpserverconnection.cpp'))
+    per_req = None
+    pm_ = re.search(r'void\s+HttpServerConnection::ProcessMessages\s*\([^)]*\)\s*\{', hs)
+    if pm_:
+        depth, k = 1, pm_.end()
+        while k < len(hs) and depth:
+            if hs[k] == '{': depth += 1
+            elif hs[k] == '}': depth -= 1
+            k += 1
+        pb = hs[pm_.end():k - 1]
+        lp = re.search(r'for\s*\(\s*;\s*;\s*\)\s*\{', pb)
+        assigns_all = re.findall(r'\bm_ApiUser\s*=(?!=)', hs)
+        assigns_pm = re.findall(r'\bm_ApiUser\s*(?:=(?!=)|\.\s*swap|\.\s*reset)', pb)
+        ctor = re.search(r'm_ApiUser\s*=\s*ApiUser::GetByClientCN\s*\(\s*identity\s*\)', hs)
+        if lp:
+            lb = pb[lp.end():]
+            decl = re.search(r'(?:auto|ApiUser::Ptr)\s+authenticatedUser\s*(?:\(\s*m_ApiUser\s*\)|=\s*m_ApiUser|\{\s*m_ApiUser\s*\})\s*;', lb)
+            hdr = re.search(r'authenticatedUser\s*=\s*ApiUser::GetByAuthHeader\s*\(\s*(?:std::string\s*\(\s*)?request\s*\[\s*http::field::authorization\s*\]', lb)
+            ens = re.search(r'EnsureAuthenticatedUser\s*\(\s*\*m_Stream\s*,\s*request\s*,\s*authenticatedUser\s*,', lb)
+            prq = re.search(r'ProcessRequest\s*\(\s*\*m_Stream\s*,\s*request\s*,\s*authenticatedUser\s*,', lb)
+            if assigns_pm or re.search(r'ProcessRequest\s*\(\s*\*m_Stream\s*,\s*request\s*,\s*m_ApiUser\s*,', lb):
+                per_req = False
+            elif decl and hdr and ens and prq and ctor and len(assigns_all) == 1 and decl.start() < hdr.start() < ens.start() < prq.start():
+                per_req = True
+    if per_req is None:
+        log.append('C18: per-request user of HttpServerConnection::ProcessMessages not recognised (compared only)')
+    body += 'Definition f_pm_auth_user_per_request : option bool := %s.\n' % ('None' if per_req is None else ('Some true' if per_req else 'Some false'))
     body += 'Definition f_pm_join_cache_text : string := "%s"%%string.\n' % ('%s; %s' % (ck_text, tk_text)).replace('"', '')
     emit('Facts_c18.v', body)
